@@ -56,7 +56,7 @@ claim(
 )
 
 ALL = [f"C{n:02d}" for n in range(1, 21)]
-READY = {"C08", "C12", "C19"}  # checks that are built, pass on the unchanged tree and are registered
+READY = {"C03", "C08", "C12", "C19"}  # checks that are built, pass on the unchanged tree and are registered
 
 
 def main():
